@@ -18,6 +18,10 @@ pub enum LOp {
     Bucket { v: Vec<f32>, table: i64, hp: usize },
     Buckets { v: Vec<f32>, tables: usize, hp: usize },
     BucketDist { v: Vec<f32>, table: i64, hp: usize },
+    MultiProbe { v: Vec<f32>, table: i64, hp: usize, k: usize },
+    BucketI8 { v: Vec<i8>, table: i64, hp: usize },
+    BucketDistI8 { v: Vec<i8>, table: i64, hp: usize },
+    MultiProbeI8 { v: Vec<i8>, table: i64, hp: usize, k: usize },
     Prewarm { table: i64, hp: usize, dim: usize },
     Clear,
     Resize { n: usize },
@@ -54,6 +58,39 @@ fn fail(oracle: &str, detail: String) -> Failure {
 
 fn key(v: &[f32], table: i64, hp: usize) -> String {
     format!("{:?}|{table}|{hp}", v.iter().map(|f| f.to_bits()).collect::<Vec<_>>())
+}
+
+/// Every value an operation produces that must not depend on the cache: (key, value as i64 list;
+/// boundary distances are compared by their bit patterns)
+fn eval(op: &LOp) -> Vec<(String, Vec<i64>)> {
+    let bits = |d: &[f64]| d.iter().map(|x| x.to_bits() as i64).collect::<Vec<i64>>();
+    match op {
+        LOp::Bucket { v, table, hp } => vec![(key(v, *table, *hp), vec![vo::lsh_bucket(v, *table, *hp)])],
+        LOp::BucketDist { v, table, hp } => {
+            let (b, d) = vo::lsh_bucket_with_distances(v, *table, *hp);
+            vec![(key(v, *table, *hp), vec![b]), (format!("dist|{}", key(v, *table, *hp)), bits(&d))]
+        }
+        LOp::Buckets { v, tables, hp } => vo::lsh_buckets(v, *tables, *hp).into_iter().enumerate().map(|(tb, b)| (key(v, tb as i64, *hp), vec![b])).collect(),
+        LOp::MultiProbe { v, table, hp, k } => vec![(format!("mp{k}|{}", key(v, *table, *hp)), vo::lsh_multi_probe(v, *table, *hp, *k))],
+        LOp::BucketI8 { v, table, hp } => vec![(format!("i8|{v:?}|{table}|{hp}"), vec![vo::lsh_bucket_int8(v, *table, *hp)])],
+        LOp::BucketDistI8 { v, table, hp } => {
+            let (b, d) = vo::lsh_bucket_with_distances_int8(v, *table, *hp);
+            vec![(format!("i8|{v:?}|{table}|{hp}"), vec![b]), (format!("i8dist|{v:?}|{table}|{hp}"), bits(&d))]
+        }
+        LOp::MultiProbeI8 { v, table, hp, k } => vec![(format!("i8mp{k}|{v:?}|{table}|{hp}"), vo::lsh_multi_probe_int8(v, *table, *hp, *k))],
+        LOp::Prewarm { table, hp, dim } => {
+            vo::prewarm_lsh_cache(*table, *hp, *dim);
+            vec![]
+        }
+        LOp::Clear => {
+            vo::clear_lsh_cache();
+            vec![]
+        }
+        LOp::Resize { n } => {
+            vo::configure_lsh_cache_size(*n);
+            vec![]
+        }
+    }
 }
 
 fn laws(v: &[f32], w: &[f32]) -> Result<u32, Failure> {
@@ -123,20 +160,26 @@ fn probe_laws(bucket: i64, hp: usize) -> Result<u32, Failure> {
 pub fn exec(case: &LCase) -> LOutcome {
     let mut out = LOutcome::default();
     // pristine expectations, each on an empty cache
-    let mut expected: BTreeMap<String, i64> = BTreeMap::new();
+    let mut expected: BTreeMap<String, Vec<i64>> = BTreeMap::new();
     let mut all_vecs: Vec<Vec<f32>> = Vec::new();
     for t in &case.threads {
         for op in t {
-            let (v, tables, hp): (&Vec<f32>, Vec<i64>, usize) = match op {
-                LOp::Bucket { v, table, hp } | LOp::BucketDist { v, table, hp } => (v, vec![*table], *hp),
-                LOp::Buckets { v, tables, hp } => (v, (0..*tables as i64).collect(), *hp),
-                _ => continue,
+            match op {
+                LOp::Prewarm { .. } | LOp::Clear | LOp::Resize { .. } => continue,
+                LOp::Bucket { v, .. } | LOp::BucketDist { v, .. } | LOp::Buckets { v, .. } | LOp::MultiProbe { v, .. } => all_vecs.push(v.clone()),
+                _ => {}
+            }
+            // one value at a time on an empty cache (a Buckets call fills several tables)
+            let singles: Vec<LOp> = match op {
+                LOp::Buckets { v, tables, hp } => (0..*tables as i64).map(|tb| LOp::Bucket { v: v.clone(), table: tb, hp: *hp }).collect(),
+                o => vec![o.clone()],
             };
-            all_vecs.push(v.clone());
-            for tb in tables {
+            for o in singles {
                 vo::clear_lsh_cache();
                 vo::configure_lsh_cache_size(64);
-                expected.insert(key(v, tb, hp), vo::lsh_bucket(v, tb, hp));
+                for (k, val) in eval(&o) {
+                    expected.insert(k, val);
+                }
             }
         }
     }
@@ -154,25 +197,13 @@ pub fn exec(case: &LCase) -> LOutcome {
         bodies.push(Box::new(move || {
             for op in &ops {
                 simsched::switch_point("op.invoke");
-                let mut got: Vec<(String, i64)> = Vec::new();
-                match op {
-                    LOp::Bucket { v, table, hp } => got.push((key(v, *table, *hp), vo::lsh_bucket(v, *table, *hp))),
-                    LOp::BucketDist { v, table, hp } => got.push((key(v, *table, *hp), vo::lsh_bucket_with_distances(v, *table, *hp).0)),
-                    LOp::Buckets { v, tables, hp } => {
-                        for (tb, b) in vo::lsh_buckets(v, *tables, *hp).into_iter().enumerate() {
-                            got.push((key(v, tb as i64, *hp), b));
-                        }
-                    }
-                    LOp::Prewarm { table, hp, dim } => vo::prewarm_lsh_cache(*table, *hp, *dim),
-                    LOp::Clear => vo::clear_lsh_cache(),
-                    LOp::Resize { n } => vo::configure_lsh_cache_size(*n),
-                }
+                let got = eval(op);
                 for (k, b) in got {
                     checked.fetch_add(1, std::sync::atomic::Ordering::Relaxed);
                     if expected.get(&k) != Some(&b) {
                         errors.lock().expect("e").push(fail(
                             "lsh_bucket_depends_on_cache_state",
-                            format!("{k}: got bucket {b}, a pristine cache gives {:?}", expected.get(&k)),
+                            format!("{k}: got {b:?}, a pristine cache gives {:?}", expected.get(&k)),
                         ));
                     }
                 }
@@ -215,9 +246,9 @@ pub fn exec(case: &LCase) -> LOutcome {
             }
         }
         if result.is_ok() {
-            for (k, b) in expected.iter().take(16) {
+            for (k, b) in expected.iter().filter(|(k, v)| v.len() == 1 && !k.contains("dist")).take(16) {
                 let hp: usize = k.rsplit('|').next().and_then(|s| s.parse().ok()).unwrap_or(8);
-                match probe_laws(*b, hp.min(62).max(1)) {
+                match probe_laws(b[0], hp.min(62).max(1)) {
                     Ok(k) => n += k,
                     Err(f) => {
                         result = Err(f);
